@@ -24,7 +24,8 @@ ASSUMPTIONS = [
     "reference: executable map slot -> value with slot = round_half_even(t / period), window = [newest - capacity + 1, newest]",
     "datetime queries: start/end symbolic microseconds (unaligned, inverted, outside the window, closer than one period); index queries: each index None or in [-3, 3]",
 ]
-BOUNDS = {"quick": "capacity 1 and 2 with 2 updates: consistency after every update, + one datetime query, + one index query (all exhaustive; timestamps anywhere in a 3-5 s span at us resolution)",
+BOUNDS = {"quick": "capacity 1 and 2 with 2 updates: consistency after every update, + one datetime query, + one index query, + MovingWindow.at (all exhaustive; timestamps anywhere in a 3-5 s span at us resolution); "
+                   "deeper histories with update timestamps enumerated on the slot grid: capacity 4 with 4 updates (state), capacity 3 with 3 updates + symbolic datetime query",
           "thorough": "capacity 3 with 3 updates: consistency (exhaustive), + queries (budgeted); capacity 3 with 4 updates (budgeted); capacity 1 with 3 updates"}
 OUTSIDE = "numpy container (shares every line except _wrapped_buffer_window/_fill_gaps branches); serialization; MovingWindow's resampler wiring; other sampling periods"
 BUDGET = {"quick": 900, "thorough": 2400}
@@ -50,12 +51,14 @@ def slot_of(us):
     return core.SymInt(core.rhe_div(EI(us), z3.IntVal(PUS)))
 
 
-def apply_updates(ex, cap, k, span, check_each):
+def apply_updates(ex, cap, k, span, check_each, grid=False):
+    """grid=True: update timestamps are enumerated on the slot grid (concrete), which makes deeper histories affordable;
+    queries stay symbolic."""
     buf = rb.OrderedRingBuffer([0.0] * cap, PERIOD, core.EPOCH)
     model = {}
     newest = None
     for i in range(k):
-        us = ex.int_(f"t{i}", 0, span * PUS)
+        us = ex.choice(f"slot{i}", span + 1) * PUS if grid else ex.int_(f"t{i}", 0, span * PUS)
         ts = core.EPOCH + us * timedelta(microseconds=1)
         slot = slot_of(us)
         missing = ex.flag(f"missing{i}")
@@ -117,10 +120,10 @@ def same(got, exp):
     return len(got) == len(exp) and all((a == b) or (isinstance(a, float) and isinstance(b, float) and math.isnan(a) and math.isnan(b)) for a, b in zip(got, exp))
 
 
-def make(cap, k, span, mode, reach=False):
+def make(cap, k, span, mode, reach=False, grid=False):
     """mode: 'state' (consistency after every update), 'dtq' (+ one datetime window query), 'idxq' (+ one index window query)"""
     def fn(ex):
-        buf, model, newest = apply_updates(ex, cap, k, span, check_each=(mode == "state"))
+        buf, model, newest = apply_updates(ex, cap, k, span, check_each=(mode == "state"), grid=grid)
         if newest is None:
             return
         if reach:
@@ -231,6 +234,8 @@ def instances(tier):
         I("cap2-k2-dtq", "make", (2, 2, 4, "dtq"), "capacity 2, 2 updates in a 4 s span + datetime query", budget_s=600, **kw),
         I("cap2-k2-idxq", "make", (2, 2, 3, "idxq"), "capacity 2, 2 updates in a 3 s span + index query", budget_s=600, **kw),
         I("cap2-k2-at", "make_at", (2, 2, 4), "MovingWindow.at / [] with index or datetime key, capacity 2, 2 updates", budget_s=300, **kw),
+        I("grid-cap4-k4-state", "make", (4, 4, 6, "state", False, True), "capacity 4, 4 updates on the slot grid (7 slots): state after every update", budget_s=300, **kw),
+        I("grid-cap3-k3-dtq", "make", (3, 3, 5, "dtq", False, True), "capacity 3, 3 updates on the slot grid + symbolic datetime query", budget_s=300, **kw),
     ]
     if tier != "quick":
         out += [
